@@ -8,8 +8,11 @@ B: (typing) get_mol2_type -> set_mol2_type on a fresh atom -> get_mol2_type is r
    bond type on the real code; (structures) TLC generates objects (random walks of the Build actions + bundled mol2
    files), the harness builds them as real objects and records dumps_mol2 / loads_mol2 / loads_all_mol2 /
    ConformerEnsemble.loads_mol2 / dumps / loads again; then the SAME object is edited through public attributes as the
-   spec's Edit actions prescribe (bond re-typed, atom re-typed / re-labelled, atom moved, renamed) and written / read once
-   more, so that anything the writer remembers from the first write (cached tokens) shows up as a contract violation.
+   spec's Edit actions prescribe (bond re-typed, atom re-typed / re-labelled, atom moved, renamed, or ALIASED: some of its
+   atoms are put without copying into a Promolecule / Structure that is kept alive or dropped again, or looked at through a
+   Substructure / Conformer view - which changes nothing in the object) and written / read once more, so that anything the
+   writer remembers from the first write (cached tokens) or looks up outside the object being written (atom.idx / parent)
+   shows up as a contract violation.
    All traces are validated by TLC against Mol2TextTrace: a step
    is accepted only if the contract holds in the state it leads to.  Python never decides a verdict."""
 from __future__ import annotations
@@ -53,8 +56,10 @@ DEVIATIONS = {
     # a writer that remembers tokens per bond / atom object re-emits them after the object was edited
     "StaleBondTokenCache": ("DevStaleBond", ("BondsPreserved",)),
     "StaleAtomTokenCache": ("DevStaleAtom", ("AtomsPreserved",)),
+    # a writer that asks the atoms for their index (atom.idx -> atom.parent) instead of the object being written
+    "EndpointsViaParentIndex": ("DevParentIdx", ("BondsPreserved", "WriteSucceeds")),
 }
-EDIT_DEVIATIONS = ("StaleBondTokenCache", "StaleAtomTokenCache")       # need the model with edits
+EDIT_DEVIATIONS = ("StaleBondTokenCache", "StaleAtomTokenCache", "EndpointsViaParentIndex")   # need the model with edits
 
 _VOC = None
 
@@ -96,12 +101,12 @@ MODELS = {
 }
 
 
-NO_EDITS = dict(MaxEdits=0, EditBonds="<- NoBonds", EditPhases="<- NoPhase")
+NO_EDITS = dict(MaxEdits=0, EditBonds="<- NoBonds", EditPhases="<- NoPhase", AliasPick="<- NoBonds")
 # build, write, read, write, read, then ONE edit of the same object (bond re-typed, atom re-typed/re-labelled, atom moved,
 # renamed) and the whole cycle again: <= 2 atoms from 3 recipes, <= 1 bond of 3 types, <= 2 conformers, 3 kinds, 2 names
 MODELS["edit"] = dict(Kinds="<- K3", Names="<- Names2", AtomPool="<- PoolT", BondPool="<- BondsM", MaxAtoms=2, MaxBonds=1,
-                      MaxConfs=2, MaxEdits=1, EditBonds="<- EditB", EditPhases="<- AfterCycle")
-MODELS["gen"].update(MaxEdits=3, EditBonds="<- BondTypes", EditPhases="<- AfterWrite")
+                      MaxConfs=2, MaxEdits=1, EditBonds="<- EditB", EditPhases="<- AfterCycle", AliasPick="<- AliasTwo")
+MODELS["gen"].update(MaxEdits=3, EditBonds="<- BondTypes", EditPhases="<- AfterWrite", AliasPick="<- AliasModes")
 
 
 def mc_cfg(model, dev="DevNone"):
@@ -111,7 +116,7 @@ def mc_cfg(model, dev="DevNone"):
 
 def trace_cfg(clauses="<- AllClauses"):
     c = {**voc_consts(), "Kinds": "<- Empty", "Names": "<- Empty", "AtomPool": "<- Empty", "BondPool": "<- Empty",
-         "MaxAtoms": 0, "MaxBonds": 0, "MaxConfs": 0, "MaxEdits": 0, "EditBonds": "<- Empty", "EditPhases": "<- Empty",
+         "MaxAtoms": 0, "MaxBonds": 0, "MaxConfs": 0, "MaxEdits": 0, "EditBonds": "<- Empty", "EditPhases": "<- Empty", "AliasPick": "<- Empty",
          "XyzSeq": "<- NoSeq", "QSeq": "<- NoSeq", "Deviations": "<- Empty",
          "Clauses": clauses}
     return dict(spec="TraceSpec", constants=c)
@@ -121,7 +126,7 @@ def trace_cfg(clauses="<- AllClauses"):
 def model_jobs(tier):
     jobs = [("mc", "typing", "Mol2Text: every element x atom type x geometry triple through Write/Read/Write/Read", 2),
             ("mc", "small", "Mol2Text: all bounded structures (<=2 atoms, every bond type, <=2 conformers, 3 kinds)", 1),
-            ("mc", "edit", "Mol2Text: full cycle, every single edit of the same object, full cycle again (<=2 atoms, <=1 bond)", 1)]
+            ("mc", "edit", "Mol2Text: full cycle, every single edit of the same object, full cycle again (<=2 atoms, <=1 bond)", 2)]
     if tier == "thorough":
         jobs += [("mc", "medium", "Mol2Text: all bounded structures (<=3 atoms, <=1 bond of every type, <=3 conformers)", 4),
                  ("mc", "bonds", "Mol2Text: all bounded structures (<=3 atoms, <=3 bonds of 3 types, <=2 conformers)", 4)]
@@ -148,7 +153,7 @@ def run_model_job(job):
 # --------------------------------------------------------------------------------------------- B: cases
 def generate(ev, tier, seed):
     """Objects generated by TLC: random walks over New/AddAtom/Connect/AddConf/Build of Mol2Text (bounds 'gen')."""
-    runs = [(700, seed)] if tier == "quick" else [(5000, seed * 4 + i) for i in range(4)]
+    runs = [(600, seed)] if tier == "quick" else [(5000, seed * 4 + i) for i in range(4)]
     cfg = mc_cfg("gen")
 
     def one(a):
@@ -356,7 +361,7 @@ def binding_selftest(ev, rep):
     ed = json.loads(json.dumps(mol["obj"]))
     ed["blocks"][0]["bonds"][0]["bt"] = "Double"
     ed["blocks"][0]["atoms"][2].update(el="S", at="O_Sulfone", g="R4_Tetrahedral", lab="S1")
-    mol = {**mol, "obj2": ed, "edits": [{"op": "bond", "i": 1, "bt": "Double"},
+    mol = {**mol, "obj2": ed, "edits": [{"op": "alias", "mode": "promol", "atoms": [3, 1]}, {"op": "bond", "i": 1, "bt": "Double"},
                                         {"op": "atom", "i": 3, "el": "S", "at": "O_Sulfone", "g": "R4_Tetrahedral", "lab": "S1"}]}
     base_m = case_traces("selfM", mol, routes=("loads",))[0][0][0]
     assert [e["ev"] for e in base_m["ev"]] == ["build", "write", "read", "write2", "read2", "edit", "write", "read"], base_m
@@ -389,6 +394,8 @@ def binding_selftest(ev, rep):
     mut(base_m, "stale-bond-type-after-edit", 8, lambda e: rd(e, 7)["bonds"][0].__setitem__("bt", "Amide"))
     mut(base_m, "stale-element-after-edit", 8, lambda e: rd(e, 7)["atoms"][2].__setitem__("el", "O"))
     mut(base_m, "stale-label-after-edit", 8, lambda e: rd(e, 7)["atoms"][2].__setitem__("lab", "O"))
+    mut(base_m, "foreign-endpoint-after-alias", 8, lambda e: rd(e, 7)["bonds"][1].__setitem__("a", 2))
+    mut(base_m, "edit-event-object-falsified", 8, lambda e: e[5]["obj"]["blocks"][0]["atoms"].reverse())
     mut(base_m, "edit-event-dropped", 6, lambda e: e.pop(5))
     mut(base_e, "conformers-swapped", 3, lambda e: e[2]["res"]["blocks"].reverse())
     mut(base_e, "conformer-lost", 3, lambda e: e[2]["res"]["blocks"].pop())
@@ -483,7 +490,9 @@ def run(tier, seed, replay_path):
                                    for k in ("Mol", "Struct", "Ens")}},
            edits={"objects_edited_and_written_again": sum(1 for c in cases if c.get("edits")),
                   "operations": {k: sum(1 for c in cases for o in c.get("edits", []) if o["op"] == k)
-                                 for k in ("bond", "atom", "move", "name")}},
+                                 for k in ("bond", "atom", "move", "name", "alias")},
+                  "alias_modes": {m: sum(1 for c in cases for o in c.get("edits", []) if o["op"] == "alias" and o["mode"] == m)
+                                  for m in ("promol", "struct", "dropped", "view")}},
            vocabulary={k: len(v) for k, v in voc().items()},
            exhaustive=False,
            exhaustive_note="typing: every member of Element x AtomType x AtomGeom and of BondType, on the model and on the "
